@@ -3255,3 +3255,23 @@ Q(name="e2_handle_packet_error_block_slice", props=["C08"], func=r"connection/mo
   functions=["Connection::handle_packet (slice: the error-state transitions after a packet was processed)"], pre=lambda c: "true", post=er_post,
   bounds="the block that turns a packet-processing error into a state transition, from an ARBITRARY state: the reason handed to the application (`self.error`) is (re)assigned only if the connection was not already Draining or Drained - a draining connection has reported its peer's close, and a stateless reset or garbage arriving during the drain period must not produce a second ConnectionLost; a connection closed LOCALLY (state Closed, nothing reported yet) still learns of a reset, as the crate's own client_stateless_reset test expects",
   replay=("conn_second_reason_native", lambda m: [dict(x=0)]))
+
+
+# ------------------------------------------------------------------ C12: base case for Bbr - a new controller already reports at least two datagrams
+def bn_post(c, p):
+    st = p.p.state
+    if p.p.outcome != "return":
+        return "true"
+    F = lambda n: "_0.%d" % c.field("congestion/bbr/mod.rs", "Bbr", n)
+    mtu = "((_ zero_extend 48) %s)" % c.inp("_2", ("bv", 16, False))
+    cwnd = c.ex.read_key(st, F("cwnd"), BV64).t
+    # Startup, not in recovery: window() is cwnd
+    return and_("(bvuge %s (bvmul (_ bv2 64) %s))" % (cwnd, mtu), "(bvuge %s (bvmul (_ bv2 64) %s))" % (c.ex.read_key(st, F("init_cwnd"), BV64).t, mtu),
+                eq(c.ex.read_key(st, F("recovery_state") + "#discr", I64).t, bv(c.ex.enums["RecoveryState"].index("NotInRecovery"))))
+
+
+Q(name="e2_bbr_new_window_floor", props=["C12"], func=r"congestion/bbr/mod\.rs:\d+:1: \d+:9>::new$",
+  allowed_panics=r".", ignore_untranslatable=r".", inline=[r"calculate_min_window$"],
+  functions=["Bbr::new", "calculate_min_window"], pre=lambda c: "true", post=bn_post,
+  bounds="every configured initial window and every initial MTU: a new Bbr controller is in Startup, not in recovery, and both cwnd (what window() reports then) and init_cwnd are at least two datagrams (in fact four: min_cwnd); the Kani base case covers NewReno and Cubic (Bbr::new trips an internal error of the Kani compiler)",
+  replay=("bbr_new_window_native", lambda m: [dict(initial_window=0, mtu=1200), dict(initial_window=12000, mtu=9000)]))
